@@ -34,7 +34,7 @@ ASSUMPTIONS = [
 MIN_MONITOR = {"mon.single_change_oracle": 300, "mon.applications": 300, "mon.once_oracle": 200, "mon.reach_oracle": 200,
                "mon.identity_oracle": 50, "mon.collision_oracle": 10}
 SHARD_TIMEOUT = {"quick": 900, "thorough": 7200}
-N_GRAPHS = {"quick": 640, "thorough": 6000}
+N_GRAPHS = {"quick": 1600, "thorough": 8000}
 
 # class name (first match along the MRO) -> discipline
 ONCE = {"CachedMapper", "EqualityComparer"}          # exactly once per (mapper, node, key)
